@@ -1,4 +1,4 @@
-\* observation beyond the listed properties: can background work stop for ever? (1 worker, queue capacity 2 standing in for 1000)
+\* background work never stops for ever (1 worker, queue capacity 2 standing in for 1000)
 SPECIFICATION FairSpec
 CONSTANTS
   NWorkers = 1
@@ -6,6 +6,7 @@ CONSTANTS
   MaxWrites = 6
   SendUnderLock = FALSE
   FlushTrySend = FALSE
+  InlineFlush = TRUE
 INVARIANT NoSelfDeadlock
 PROPERTY SealedEventuallyFlushed
 CHECK_DEADLOCK FALSE
